@@ -564,6 +564,9 @@ struct Plugin
   void (*setCoord)(utility::Any *, int) = nullptr;
   void (*setInt)(utility::Any *, int) = nullptr;
   int (*materialId)(const utility::Any *) = nullptr;
+  void (*setLocal)(utility::Any *, int) = nullptr;
+  int (*isLocal)(const utility::Any *) = nullptr;
+  int (*localValue)(const utility::Any *) = nullptr;
   std::string error;
   Plugin()
   {
@@ -586,10 +589,24 @@ struct Plugin
     setCoord = (void (*)(utility::Any *, int))dlsym(h, "c10_plugin_set_coord");
     setInt = (void (*)(utility::Any *, int))dlsym(h, "c10_plugin_set_int");
     materialId = (int (*)(const utility::Any *))dlsym(h, "c10_plugin_material_id");
+    setLocal = (void (*)(utility::Any *, int))dlsym(h, "c10_plugin_set_local");
+    isLocal = (int (*)(const utility::Any *))dlsym(h, "c10_plugin_is_local");
+    localValue = (int (*)(const utility::Any *))dlsym(h, "c10_plugin_local_value");
+    if (!setLocal || !isLocal || !localValue)
+      error = "C10_plugin.so lacks an entry point";
     if (!isMaterial || !isCoord || !isInt || !setMaterial || !setCoord || !setInt || !materialId)
       error = "C10_plugin.so lacks an entry point";
   }
 };
+// the host's own type called Item, in an unnamed namespace; the module has another one (C10_plugin.cpp: one int)
+namespace {
+  struct Item
+  {
+    float scale;
+    float pad[3];
+  };
+}  // namespace
+
 static void across_modules_case(const std::vector<Op> &ops, pbt::Ctx &ctx)
 {
   static Plugin plugin;
@@ -599,10 +616,10 @@ static void across_modules_case(const std::vector<Op> &ops, pbt::Ctx &ctx)
     _exit(2);
   }
   PO po;
-  int type = -1, val = 0;  // model of parameter "m": -1 absent, 0 int, 1 Material, 2 Coord
+  int type = -1, val = 0;  // model of parameter "m": -1 absent, 0 int, 1 Material, 2 Coord, 3 the module's Item, 4 the host's Item
   bool crossed = false;
   for (const Op &op : ops) {
-    const int ty = (int)(op.a % 3), v = (int)op.c;
+    const int ty = (int)(op.a % 4), v = (int)op.c;
     utility::Any *data = nullptr;
     auto locate = [&] {
       data = nullptr;
@@ -616,9 +633,11 @@ static void across_modules_case(const std::vector<Op> &ops, pbt::Ctx &ctx)
         po.setParam<int>("m", v);
       else if (ty == 1)
         po.setParam<c10::Material>("m", c10::Material{v, 0.5f * v});
-      else
+      else if (ty == 2)
         po.setParam<c10::Coord>("m", c10::Coord{(float)v, (float)(v + 1), (float)(v + 2)});
-      type = ty;
+      else
+        po.setParam<Item>("m", Item{(float)v, {0, 0, 0}});
+      type = ty == 3 ? 4 : ty;
       val = v;
       break;
     case 1:  // the module sets (through the parameter's Any)
@@ -629,8 +648,10 @@ static void across_modules_case(const std::vector<Op> &ops, pbt::Ctx &ctx)
         plugin.setInt(data, v);
       else if (ty == 1)
         plugin.setMaterial(data, v);
-      else
+      else if (ty == 2)
         plugin.setCoord(data, v);
+      else
+        plugin.setLocal(data, v);
       type = ty;
       val = v;
       crossed = true;
@@ -642,6 +663,15 @@ static void across_modules_case(const std::vector<Op> &ops, pbt::Ctx &ctx)
       PBT_ASSERT_MSG(gi == (type == 0 ? val : -999), "host getParam<int> = " << gi << " (stored type " << type << ", value " << val << ")");
       PBT_ASSERT_MSG(gm.id == (type == 1 ? val : -999), "host getParam<Material>.id = " << gm.id << " (stored type " << type << ", value " << val << ")");
       PBT_ASSERT_MSG(gc.x == (type == 2 ? (float)val : -999.f), "host getParam<Coord>.x = " << gc.x << " (stored type " << type << ", value " << val << ")");
+      if (type >= 3) {
+        // a type in an unnamed namespace is a different type in every translation unit, whatever it is called
+        ctx.label(type == 3 ? "host asks for its own Item while the module's Item is stored" : "host reads back its own Item");
+        locate();
+        PBT_ASSERT_MSG(data && data->is<Item>() == (type == 4), "host is<Item>() = " << (data && data->is<Item>()) << " with stored type " << type
+                                                                                       << " (3 = the module's Item{int}, 4 = the host's Item{float,float[3]})");
+        const Item gl = po.getParam<Item>("m", Item{-999.f, {0, 0, 0}});
+        PBT_ASSERT_MSG(gl.scale == (type == 4 ? (float)val : -999.f), "host getParam<Item>.scale = " << gl.scale << " (stored type " << type << ", value " << val << ")");
+      }
       break;
     }
     default:  // the module asks for the type
@@ -652,6 +682,10 @@ static void across_modules_case(const std::vector<Op> &ops, pbt::Ctx &ctx)
           "the module sees is<int>=" << plugin.isInt(data) << " is<Material>=" << plugin.isMaterial(data) << " is<Coord>=" << plugin.isCoord(data) << " for a parameter of stored type " << type);
       if (type == 1)
         PBT_ASSERT(plugin.materialId(data) == val);
+      PBT_ASSERT_MSG(plugin.isLocal(data) == (type == 3), "the module sees is<Item>=" << plugin.isLocal(data) << " for stored type " << type
+                                                                                      << " (3 = the module's own Item, 4 = the host's Item of the same name)");
+      if (type == 3)
+        PBT_ASSERT(plugin.localValue(data) == val);
       crossed = true;
       break;
     }
@@ -667,7 +701,7 @@ static void register_properties()
   pbt::property<std::vector<Op>>("flatmap_string_int", 1500, ops, flatmap_case<std::string, int>);
   pbt::property<std::vector<Op>>("flatmap_int_string", 1500, ops, flatmap_case<int, std::string>);
   pbt::property<std::vector<Op>>("flatmap_string_tracked", 1500, ops, flatmap_case<std::string, Tracked>);
-  pbt::property<std::vector<Op>>("parameters_across_modules", 800, pbt::vec(pbt::genOp(4, 2, 1, 40), 16), across_modules_case);
+  pbt::property<std::vector<Op>>("parameters_across_modules", 800, pbt::vec(pbt::genOp(4, 3, 1, 40), 16), across_modules_case);
   pbt::property<std::vector<Op>>("flatmap_string_string", 1500, ops, flatmap_case<std::string, std::string>);
   pbt::property<std::vector<Op>>("flatmap_int_int", 1500, ops, flatmap_case<int, int>);
   pbt::property<POCase>("parameterized_object", 3000, rc::gen::pair(pbt::range<int>(0, 63), pbt::vec(pbt::genOp(P_NKINDS, 5, 7, 9), 40)), po_case);
